@@ -87,6 +87,73 @@ thread_local! {
     pub static PANICS: RefCell<Vec<(bool, String)>> = const { RefCell::new(Vec::new()) };
 }
 
+/// Wall-clock watchdog for a single simulated run. Everything inside a run is decided by the seed, so a
+/// run's wall time is a few milliseconds to a few seconds; a run that is still going after
+/// `VERIF_RUN_WALL_LIMIT_S` (default 90 s) is executing a loop that never returns to the scheduler (the
+/// in-simulation spin detector only sees tasks that yield). The watchdog never influences a run that ends.
+pub mod watchdog {
+    use std::sync::atomic::{AtomicU64, AtomicU8, Ordering};
+    use std::sync::{Mutex, Once, OnceLock};
+    use std::time::Instant;
+
+    static DEADLINE_MS: AtomicU64 = AtomicU64::new(0);
+    pub static IDX: AtomicU64 = AtomicU64::new(u64::MAX);
+    static MODE: AtomicU8 = AtomicU8::new(0);
+    static START: OnceLock<Instant> = OnceLock::new();
+    static ONCE: Once = Once::new();
+    pub static REPLAY: Mutex<Option<(String, String)>> = Mutex::new(None);
+
+    pub const WORKER: u8 = 0;
+    pub const REPLAYING: u8 = 1;
+    pub const MINIMISING: u8 = 2;
+
+    fn now_ms() -> u64 {
+        START.get_or_init(Instant::now).elapsed().as_millis() as u64 + 1
+    }
+    pub fn limit_s() -> u64 {
+        std::env::var("VERIF_RUN_WALL_LIMIT_S").ok().and_then(|s| s.parse().ok()).filter(|v| *v >= 1).unwrap_or(90)
+    }
+    pub fn start(mode: u8) {
+        MODE.store(mode, Ordering::SeqCst);
+        let _ = now_ms();
+        ONCE.call_once(|| {
+            std::thread::spawn(|| loop {
+                std::thread::sleep(std::time::Duration::from_millis(500));
+                let d = DEADLINE_MS.load(Ordering::SeqCst);
+                if d != 0 && now_ms() > d {
+                    fire();
+                }
+            });
+        });
+    }
+    pub fn arm() {
+        DEADLINE_MS.store(now_ms() + limit_s() * 1000, Ordering::SeqCst);
+    }
+    pub fn disarm() {
+        DEADLINE_MS.store(0, Ordering::SeqCst);
+    }
+    fn fire() -> ! {
+        use std::io::Write;
+        match MODE.load(Ordering::SeqCst) {
+            WORKER => {
+                let mut o = std::io::stdout().lock();
+                let _ = writeln!(o, "{{\"hang\":{}}}", IDX.load(Ordering::SeqCst));
+                let _ = o.flush();
+                drop(o);
+                std::process::exit(3)
+            }
+            REPLAYING => {
+                let (prop, path) = REPLAY.lock().ok().and_then(|g| g.clone()).unwrap_or_default();
+                println!("reproduced: clause=hang sig=run-does-not-terminate detail=the run was still executing after {} s of wall time", limit_s());
+                println!("VIOLATION property={} replay={}", prop, path);
+                let _ = std::io::stdout().flush();
+                std::process::exit(1)
+            }
+            _ => std::process::exit(5),
+        }
+    }
+}
+
 pub fn install_panic_hook() {
     std::panic::set_hook(Box::new(|info| {
         let loc = info.location().map(|l| format!("{}:{}", l.file(), l.line())).unwrap_or_default();
@@ -168,6 +235,7 @@ pub fn decisions_from_json(v: &Value) -> Vec<Decision> {
 /// Execute one run. `mode`: Hash while searching, Sparse(map) when replaying / minimising.
 pub fn run_sim(check: &dyn Check, plan: &Value, run_seed: u64, mode: DecMode, trace: bool) -> RunOut {
     PANICS.with(|p| p.borrow_mut().clear());
+    watchdog::arm();
     let mut w = World::new(run_seed);
     w.knobs = knobs_from_plan(plan);
     w.mode = mode;
@@ -208,6 +276,7 @@ pub fn run_sim(check: &dyn Check, plan: &Value, run_seed: u64, mode: DecMode, tr
         world::now_us()
     };
     drop(rt);
+    watchdog::disarm();
     anytls_simrand::uninstall();
     let w = world::take().expect("world");
     let panics: Vec<(bool, String)> = PANICS.with(|p| p.borrow().clone());
